@@ -497,6 +497,13 @@ S(id="E.set.add_nonstart.bias", props=["C12"], spec="earley.spec.c", harness="h_
   what="the same contract with up to 5 start situations: the parent-index pointer biased by -n_start_sits is then formed BEFORE the start of the segment block when the top object begins "
        "closer to it than that (F34); the verifier reports the accesses through that pointer, everything else is discharged",
   assumes=["as E.set.add_nonstart"])
+S(id="E.set.dists_hash", props=["C12"], spec="earley.spec.c", harness="h_dists_hash", mode="U", loops=True, n_loops=1, canaries=2, enforce=["setup_set_dists_hash/dists_hash_c"],
+  functions=["setup_set_dists_hash"], params={"quick": {"DMAX": 64}, "thorough": {"DMAX": 1024}},
+  what="the hash of a set's distance vector reads exactly its n_start_sits distances (loop closed by its contract) and writes only the hash field; for a set without start situations the "
+       "vector is NULL and no arithmetic is done on the null pointer (F29); the value is checked for vectors of length 0 and 1",
+  assumes=["vector size capped by DMAX elements (object size only)"])
+S(id="E.set.new_start", props=["C12", "C14"], spec="earley.spec.c", harness="h_new_start", mode="L", enforce=["set_new_start/new_start_c"], functions=["set_new_start"],
+  what="starting a new set resets exactly the six file-scope variables that describe the set being formed, whatever they held")
 S(id="T.rule.add", props=["C12", "C10"], spec="symtab.spec.c", harness="h_rule_add", mode="L", canaries=2, enforce=["rule_new_symb_add/rule_add_c"],
   replace=["_OS_expand_memory/os_expand_keep_c"], functions=["rule_new_symb_add"], params={"quick": {"CAP": 8, "RCAP": 3}, "thorough": {"CAP": 8, "RCAP": 3}}, mem=32, timeout=1500, tier="thorough",
   bound="the open array holds <= 3 symbols before the call; the function has no loop (thorough tier only: 5 minutes)",
